@@ -339,6 +339,7 @@ func (fr *Frame) applyModifies(st *State, fc *FuncContract, env *Env, view strin
 				continue
 			}
 			st.heap[k] = vc.fresh(k, srt)
+			vc.heapRange(k, st.heap[k], false)
 		}
 		return
 	}
@@ -385,6 +386,7 @@ func (fr *Frame) havocTarget(st *State, m Expr, env *Env) (err error) {
 						p := fieldKey(S, x.Name)
 						if k == p || strings.HasPrefix(k, p+".") {
 							st.heap[k] = vc.fresh(k, srt)
+							vc.heapRange(k, st.heap[k], false)
 						}
 					}
 					return nil
@@ -452,6 +454,7 @@ func (fr *Frame) havocTarget(st *State, m Expr, env *Env) (err error) {
 			key := elemKey(sl.Elem()) + c.suf
 			h := vc.hget(st, key, s)
 			na := vc.fresh("havoc_arr", "(Array "+vc.idxSort()+" "+c.sort+")")
+			vc.heapRange(key, na, true)
 			vc.hset(st, key, s, "(store "+h+" "+v.C[0]+" "+na+")")
 		}
 		return nil
@@ -525,6 +528,7 @@ func (fr *Frame) lockPrimitive(st *State, key string, args []Val, pos token.Pos)
 				continue
 			}
 			st.heap[k] = vc.fresh(k, srt)
+			vc.heapRange(k, st.heap[k], false)
 		}
 		t0 := vc.top(st)
 		t1 := vc.fresh("top", "Int")
